@@ -403,14 +403,15 @@ where
 		let mut tx_f = File::open(tx_file)?;
 		let mut content = String::new();
 		tx_f.read_to_string(&mut content)?;
-		let tx_bin = util::from_hex(&content).unwrap();
+		let tx_bin =
+			util::from_hex(&content).map_err(|e| Error::StoredTx(format!("{}: {}", uuid, e)))?;
 		Ok(Some(
 			ser::deserialize(
 				&mut &tx_bin[..],
 				ser::ProtocolVersion(1),
 				ser::DeserializationMode::default(),
 			)
-			.unwrap(),
+			.map_err(|e| Error::StoredTx(format!("{}: {}", uuid, e)))?,
 		))
 	}
 
